@@ -336,7 +336,7 @@ fn queries(t: &Tree, full: bool) -> Vec<(Vec<String>, Option<Vec<String>>, Optio
         strip_lists.push(Some(s(&["t/", "t/a"])));
         strip_lists.push(Some(s(&["t/a", "t/"])));
     }
-    let alg_lists: Vec<Option<Vec<String>>> = vec![None, Some(s(&["sha256"])), Some(s(&["sha512"])), Some(s(&["sha256", "sha512"])), Some(s(&["md5"])), Some(s(&["sha512", "sha256"]))];
+    let alg_lists: Vec<Option<Vec<String>>> = vec![None, Some(s(&["sha256"])), Some(s(&["sha512"])), Some(s(&["sha256", "sha512"])), Some(s(&["md5"])), Some(s(&["sha512", "sha256"])), Some(s(&["sha256", "md5"])), Some(s(&["sha1", "sha256"])), Some(s(&["sha256", "SHA512"])), Some(s(&["sha256", "sha256"]))];
     let mut q = vec![];
     // the whole tree: full product of strip lists x algorithm lists
     for st in &strip_lists {
@@ -692,6 +692,54 @@ fn run_leg(case: &Value, t: &Tree) -> Value {
     json!({"queries": 1, "mismatches": mismatches, "reference_maps": 1, "reference_errors": 0, "reference_entries": 0})
 }
 
+/// `crypto::calculate_hashes` (what every recording function uses) over readers that return short
+/// reads, one byte at a time, or are interrupted: length and digests of the whole content.
+fn hashes_leg(acc: &mut Acc) {
+    use in_toto::crypto::{calculate_hashes, HashAlgorithm};
+    use std::io::Read;
+    struct Chunked<'a>(&'a [u8], usize, bool, bool);
+    impl Read for Chunked<'_> {
+        fn read(&mut self, buf: &mut [u8]) -> std::io::Result<usize> {
+            if self.2 && !self.3 {
+                self.3 = true;
+                return Err(std::io::Error::new(std::io::ErrorKind::Interrupted, "interrupted"));
+            }
+            self.3 = false;
+            let n = self.1.min(buf.len()).min(self.0.len());
+            buf[..n].copy_from_slice(&self.0[..n]);
+            self.0 = &self.0[n..];
+            Ok(n)
+        }
+    }
+    for ci in 0..8 {
+        let bytes = content(ci);
+        for (rname, chunk, interrupted) in [("whole", usize::MAX, false), ("1 byte", 1, false), ("7 bytes", 7, false), ("1023 bytes", 1023, false), ("1025 bytes", 1025, false), ("interrupted", 512, true)] {
+            for algs in [vec![HashAlgorithm::Sha256], vec![HashAlgorithm::Sha512], vec![HashAlgorithm::Sha256, HashAlgorithm::Sha512], vec![HashAlgorithm::Sha512, HashAlgorithm::Sha256, HashAlgorithm::Sha256]] {
+                acc.evaluations += 1;
+                let w = || json!({"kind": "calculate_hashes", "size": bytes.len(), "reader": rname, "algorithms": format!("{algs:?}")});
+                match guard(|| calculate_hashes(Chunked(&bytes, chunk, interrupted, false), &algs)) {
+                    Guard::Panicked(l, m) => acc.violation(&format!("panic:{l}"), &m, w),
+                    // an interrupted read reported as an error is an error, not a wrong digest (observation)
+                    Guard::Done(Err(_)) if interrupted => acc.note("observation:calculate_hashes-does-not-retry-an-interrupted-read"),
+                    Guard::Done(Err(e)) => acc.violation("calculate_hashes-fails", &format!("hashing a readable stream fails: {e:?}"), w),
+                    Guard::Done(Ok((len, map))) => {
+                        let mut ok = len == bytes.len() as u64 && map.len() == algs.iter().collect::<BTreeSet<_>>().len();
+                        for (a, h) in &map {
+                            let want = if *a == HashAlgorithm::Sha512 { util::sha512(&bytes) } else { util::sha256(&bytes) };
+                            ok &= h.value() == want.as_slice();
+                        }
+                        if ok {
+                            acc.outcome("agrees-with-reference");
+                        } else {
+                            acc.violation("calculate_hashes-differs", "length or digests of a stream differ from the reference", w);
+                        }
+                    }
+                }
+            }
+        }
+    }
+}
+
 pub fn run(tier: Tier) -> i32 {
     let mut c = Check::new("C18", "model_checking", tier);
     // oracle self-test: digests agree with sha256sum when present
@@ -749,13 +797,15 @@ pub fn run(tier: Tier) -> i32 {
             WorkerResult::NotRun => util::machinery_error("C18 case not run"),
         }
     }
+    hashes_leg(&mut acc);
     acc.note_n("record_cases", n_record as u64);
     acc.note_n("run_cases", (cases.len() - n_record) as u64);
     if capped {
         c.caps_hit.push(format!("tree cap {cap} hit at {max_nodes} nodes"));
     }
+    crate::envprobe::judge(&mut acc, "C18:", &mut c.extra);
     c.acc = acc;
-    c.rule = "state = directory tree reached by appending one node under an existing directory (mkdir; write with size in {0,1,1023,1024,1025,4097,8193,70001} for single-node trees and {1,1025} otherwise; symlink absolute/relative to any existing node or to an ancestor incl. the root), names assigned in the fixed order a, ab, .h, 'e é', deduplicated on the sorted listing; per tree a menu of queries (whole tree x 7 strip lists x 6 algorithm lists; non-normalised roots; each top-level node as root; two roots in both orders; overlapping and repeated roots) through record_artifacts in a private cwd, compared with an independent walker; plus in_toto_run with 7 commands on a subset, and with 6 argument variants (materials and products from different paths, other algorithms, strip prefixes, one side empty) x 4 commands; plus every history of depth <= 4 (5) over {add_material(f), add_product(f), write(f, c)} on 2 files x 3 contents through LinkMetadataBuilder, and record_artifact on one file x 8 sizes x 4 algorithm lists x 8 strip lists x 4 spellings. non-trivial = trees with a symlink, and run cases".into();
+    c.rule = "state = directory tree reached by appending one node under an existing directory (mkdir; write with size in {0,1,1023,1024,1025,4097,8193,70001} for single-node trees and {1,1025} otherwise; symlink absolute/relative to any existing node or to an ancestor incl. the root), names assigned in the fixed order a, ab, .h, 'e é', deduplicated on the sorted listing; per tree a menu of queries (whole tree x 7 strip lists x 10 algorithm lists (incl. lists that mix a supported with an unsupported or mis-cased name: an error, never a silently shortened digest set); non-normalised roots; each top-level node as root; two roots in both orders; overlapping and repeated roots) through record_artifacts in a private cwd, compared with an independent walker; plus in_toto_run with 7 commands on a subset, and with 6 argument variants (materials and products from different paths, other algorithms, strip prefixes, one side empty) x 4 commands; plus every history of depth <= 4 (5) over {add_material(f), add_product(f), write(f, c)} on 2 files x 3 contents through LinkMetadataBuilder, calculate_hashes over 8 sizes x 6 reader shapes (short reads, interrupted) x 4 algorithm lists; and record_artifact on one file x 8 sizes x 4 algorithm lists x 8 strip lists x 4 spellings. non-trivial = trees with a symlink, and run cases".into();
     c.bound_completed = format!("all trees with <= {max_nodes} nodes ({} trees{})", trees.len(), if capped { ", capped" } else { "" });
     c.assume("real filesystem (tmpfs); no dangling symlinks, devices, permission errors or non-UTF-8 names");
     c.assume("a file reached twice through the same key is one entry; two different files with one key must be an error");
